@@ -160,6 +160,32 @@ SNAP_STATUS = {"Pending": "PENDING", "Executable": "EXECUTABLE", "Execution comp
                "Replacing": "REPLACING", "Violation": "VIOLATION", "Expired": "EXPIRED", None: "NONE"}
 
 
+def resubmitted_scenario(rng):
+    """a new order refused by a control (the market is suspended when the strategy submits it: VIOLATION, never in the blotter) is submitted
+    again - the very same order object - once the market is open, is accepted and rests; the strategy reads its exposures afterwards"""
+    import simgen
+    P = simgen.TICKS_BP
+    t0 = 1_700_000_000_000
+    i = rng.randrange(8, 18)
+    def runner(sel, k):
+        return {"id": sel, "status": "ACTIVE", "adj": 1000, "atb": [[P[k - 2], 5000]], "atl": [[P[k + 2], 5000]], "trd": []}
+    ups = []
+    for k, st in enumerate(["OPEN", "SUSPENDED", "OPEN", "OPEN", "OPEN", "OPEN"]):
+        ups.append({"pt": t0 + 300 * k, "status": st, "version": 1, "runners": [runner(1, i), runner(2, i + 3)]})
+    side1, side2 = rng.choice(["BACK", "LAY"]), rng.choice(["BACK", "LAY"])
+    # resting prices: BACK above the best lay side's touch is not needed - BACK rests above best back, LAY below best lay
+    p1 = P[i + 1] if side1 == "BACK" else P[i - 1]
+    p2 = P[i + 4] if side2 == "BACK" else P[i + 2]
+    acts = [{"s": 0, "m": 0, "u": 1, "acts": [["place", 1, 1, side1, {"t": "L", "p": p1, "s": rng.choice([300, 400, 700]), "pt": "LAPSE", "tif": None, "mf": None}, {"mv": None}],
+                                              ["place", 2, 2, side2, {"t": "L", "p": p2, "s": rng.choice([200, 300, 500]), "pt": "LAPSE", "tif": None, "mf": None}, {"mv": None}]]},
+            {"s": 0, "m": 0, "u": 2, "acts": [["place_again", "o1"]] + ([["place_again", "o2"]] if rng.random() < 0.7 else [])}]
+    return {"config": {"place_latency": 0.12, "cancel_latency": 0.17, "update_latency": 0.15, "replace_latency": 0.28, "isolation": True},
+            "clients": [{"bpe": True, "full_match": False, "limit": None, "min_val": False}],
+            "strategies": [{"name": "s0", "client": 0, "read_exposure": True}],
+            "markets": [{"id": "1.100000001", "event": "20000001", "group": False, "type": "WIN", "bsp": True, "persist": True, "winners": 1, "updates": ups}],
+            "script": acts}
+
+
 def whole_runs(ck, rng, thorough, evalfam):
     """the strategy reads its exposures on every runner at every update of whole simulated runs (orders acknowledged, partly filled, cancelled,
     replaced, re-priced by a runner removal, converted at the off): the figures reported at each instant against the model / the brute-force
@@ -173,6 +199,8 @@ def whole_runs(ck, rng, thorough, evalfam):
         for sp in s["strategies"]:
             sp["read_exposure"] = True
         scs.append(s)
+    nre = 40 if thorough else 12
+    scs += [resubmitted_scenario(rng) for _ in range(nre)]
     outs = run_impl_parallel("simlib", [{"scenarios": [simgen.to_impl(x) for x in ch], "observe": "all"} for ch in chunked(scs, 20)], timeout=3600)
     impl = [r for o in outs for r in o["out"]]
     rows, meta, skipped = [], [], [0]
@@ -203,7 +231,7 @@ def whole_runs(ck, rng, thorough, evalfam):
     cmp_, pbad = evalfam("c16run", rows, "selq", "sel_cmp", "sel_prop")
     mis = [k for k, v in enumerate(cmp_) if v == 2]
     ck.family("exposures_over_whole_runs", len(rows), len(set(rows)), mis, pbad, ambiguous=sum(1 for v in cmp_ if v == 1),
-              dist={"runs": len(scs), "snapshots_with_orders": len(rows), "snapshots_skipped_negative_remainder_F-C04-1": skipped[0], "runs_aborted_by_impl": sum(1 for io in impl if io["error"])})
+              dist={"runs": len(scs), "runs_with_a_refused_order_submitted_again": nre, "snapshots_with_orders": len(rows), "snapshots_skipped_negative_remainder_F-C04-1": skipped[0], "runs_aborted_by_impl": sum(1 for io in impl if io["error"])})
     for k in (pbad or mis)[:2]:
         i, pt, st, sel = meta[k]
         ck.fail("C16-whole-run", "at the update published at %s strategy %d's reported exposures on selection %d differ from the worst case over its orders as they are at that instant" % (pt, st, sel),
